@@ -25,10 +25,10 @@ type AliasSpec struct {
 }
 
 type aliasStats struct {
-	Methods   []string
-	Skipped   []string
-	Calls     int
-	Patterns  int
+	Methods  []string
+	Skipped  []string
+	Calls    int
+	Patterns int
 }
 
 var aliasSkipNames = map[string]bool{"SetRandom": true, "MustSetRandom": true, "String": true, "Text": true, "SetString": true, "Marshal": true, "Unmarshal": true,
@@ -283,4 +283,3 @@ func CheckAlias(r *Run, g string, s *AliasSpec) map[string]any {
 	r.Note("alias_coverage", s.Prefix, fmt.Sprintf("patterns=%d calls=%d methods=[%s] not_enumerated=[%s]", st.Patterns, st.Calls, strings.Join(st.Methods, " "), strings.Join(st.Skipped, " ")))
 	return map[string]any{"type": s.Prefix, "methods": strings.Join(st.Methods, " "), "not_enumerated": strings.Join(st.Skipped, " "), "alias_patterns": st.Patterns, "calls": st.Calls}
 }
-
